@@ -211,7 +211,7 @@ func Run(g *gast.Grammar, in []byte, o Opts) (res *Result) {
 		it.growing = map[int][]string{}
 	}
 	res = it.res
-	start := g.Rules[0]
+	start := g.Rule(g.Rules[0].Name)
 	if o.Entry != "" {
 		start = g.Rule(o.Entry)
 	}
